@@ -732,6 +732,17 @@ def run(ctx):
         for second in ('monolithicSparse', 'streamOptimized'):
             specs.append({'gen': 'vmdk', 'params': {'ctype_first': first, 'ctype': second, 'min_total': 0}})
             specs.append({'gen': 'vmdk', 'params': {'ctype_first': first, 'ctype': second, 'min_total': 0, 'footer': True}})
+            for style in ('comment', 'comment-tail', 'indented-comment'):
+                specs.append({'gen': 'vmdk', 'params': {'ctype_first': first, 'ctype': second, 'min_total': 0,
+                                                        'ctype_first_style': style}})
+    # bytes that are not NUL after the NUL that ends the descriptor text (left-overs of an earlier, longer descriptor; binary):
+    # not part of the descriptor - a clean image stays clean, an unclean one stays unclean
+    for stale in ('ascii', 'utf8', 'late-utf8', 'bin1', 'bin2'):
+        for dn in (1, 2, 20, 100):
+            specs.append({'gen': 'vmdk', 'params': {'desc_num': dn, 'min_total': 0, 'desc_stale': stale,
+                                                    'footer': rng.random() < 0.3}})
+            specs.append({'gen': 'vmdk', 'params': {'desc_num': dn, 'min_total': 0, 'desc_stale': stale,
+                                                    'extents': ['RW 2048 FLAT "/etc/passwd" 0']}})
     # descriptors that fill the whole window the inspector reads, the offending (or a harmless) line at its very end:
     # every byte of the window counts, also the last sector of a 1 MiB descriptor
     bad_lines = [['RW 2048 FLAT "/etc/passwd" 0', False], ['RDONLY 1 SPARSE "../x.vmdk"', False], ['surprise', False],
@@ -776,3 +787,9 @@ def eval_raw_kdmv(ctx, raw, cuts):
     if res['final'] == 'vmdk':
         outcome = sl.safety_outcome(res['wrapper'].format)
         judge(ctx, {'kind': 'k11-canary', 'cuts': cuts}, 'wrapper', 'reject', [], outcome, None)
+
+
+# a third of the cases runs with the library's loggers at DEBUG and a handler that renders every record (debug=True in a
+# service's configuration); what the inspectors conclude may not depend on it
+from vlib import envmodes as _envmodes_dbg  # noqa: E402
+eval_image = _envmodes_dbg.with_modes(eval_image, debug=lambda case: True)
